@@ -349,6 +349,9 @@ func C13(p *core.Program, r *core.Report) {
 	// ---- (6) the per-bundle state is initialised once
 	checkNotifyOnce(p, r)
 
+	// ---- (7) one dispatching per bundle at a time
+	checkDispatchExclusive(p, r)
+
 	// ---- (5) direct delivery
 	fwd := p.Func(routingPkg, "Core", "forward")
 	nInv := 0
@@ -694,4 +697,82 @@ func checkNotifyOnce(p *core.Program, r *core.Report) {
 	}
 	r.Count("NotifyNewBundle announcements in daemon code", n)
 	r.Min("NotifyNewBundle announcements in daemon code", 2)
+}
+
+// checkDispatchExclusive: every algorithm reads a bundle's list of served peers
+// from the store (or its memory), extends it and writes it back; the Core's
+// handler, the pending-bundles job and the agents' submissions run in
+// goroutines of their own and a bundle is flagged pending at the start of its
+// forwarding. Two dispatchings of one bundle at a time both select the same
+// peer. Necessary: (a) forward/localDelivery are entered only through
+// Core.dispatching; (b) dispatching reserves the bundle's ID in a concurrent
+// set before it consults the algorithm and leaves when the ID is taken; (c) the
+// reservation is released by a defer registered right after it.
+func checkDispatchExclusive(p *core.Program, r *core.Report) {
+	disp := p.Func(routingPkg, "Core", "dispatching")
+	reach := p.DaemonReachable()
+	for _, name := range []string{"forward", "localDelivery"} {
+		target := p.Func(routingPkg, "Core", name)
+		for _, cs := range allCallSites(p, routingPkg+".Core."+name) {
+			if !reach[topFunc(cs.Parent())] {
+				continue
+			}
+			r.Check(cs.Parent() == disp, "dispatch-exclusive/who-may-call/"+name+"/"+fname(cs.Parent()), "Core.forward and Core.localDelivery are entered only through Core.dispatching, which holds the bundle's reservation", p.Pos(cs.Pos()), "", fname(target)+" is called outside dispatching: the per-bundle reservation is bypassed")
+		}
+	}
+	// the reservation
+	var reserve *ssa.Call
+	core.EachInstr(disp, func(in ssa.Instruction) {
+		c, ok := in.(*ssa.Call)
+		if !ok || core.CalleeName(c) != "sync.Map.LoadOrStore" {
+			return
+		}
+		if owner, _, ok := core.FieldOwner(core.CallRecv(c)); ok && owner.Obj().Name() == "Core" {
+			reserve = c
+		}
+	})
+	key := "dispatch-exclusive/" + fname(disp) + "/"
+	if reserve == nil {
+		r.Fail(key+"reserves-bundle", "dispatching reserves the bundle's ID in a concurrent set of the Core (sync.Map.LoadOrStore) before anything else", p.Pos(disp.Pos()), "no LoadOrStore on a Core field: two goroutines (handler, pending-bundles job, an agent's submission) can dispatch one bundle at the same time and both select the same peer")
+		return
+	}
+	okKey := core.DependsOn(core.Arg(reserve, 0), func(v ssa.Value) bool { return pathEndsWith(v, "Id") })
+	r.Check(okKey, key+"reserves-bundle", "dispatching reserves the bundle's ID in a concurrent set of the Core (sync.Map.LoadOrStore) before anything else", p.Pos(reserve.Pos()), "", "the reservation key is not derived from the descriptor's bundle ID")
+	// everything that consults the algorithm or moves the bundle on happens only when the ID was free
+	n := 0
+	core.EachInstr(disp, func(in ssa.Instruction) {
+		c, ok := in.(*ssa.Call)
+		if !ok {
+			return
+		}
+		name := ""
+		switch {
+		case c.Common().IsInvoke() && c.Common().Method.Name() == "DispatchingAllowed":
+			name = "DispatchingAllowed"
+		case core.NameIs(core.CalleeName(c), routingPkg+".Core.forward"):
+			name = "forward"
+		case core.NameIs(core.CalleeName(c), routingPkg+".Core.localDelivery"):
+			name = "localDelivery"
+		default:
+			return
+		}
+		n++
+		free := false
+		for _, cd := range core.DominatingConds(c.Block()) {
+			if ex, ok := cd.V.(*ssa.Extract); ok && ex.Tuple == ssa.Value(reserve) && ex.Index == 1 && !cd.True {
+				free = true
+			}
+		}
+		released := core.MustPassBefore(c, func(i ssa.Instruction) bool {
+			d, ok := i.(*ssa.Defer)
+			if !ok || core.CalleeName(d) != "sync.Map.Delete" {
+				return false
+			}
+			a, b := core.Strip(core.Arg(d, 0)), core.Strip(core.Arg(reserve, 0))
+			return a == b || core.SameLoad(a, b)
+		})
+		r.Check(free && released, key+"only-when-free/"+name, "the algorithm is consulted and the bundle moved on only when its ID was not reserved by another dispatching, and the reservation is released by a defer registered before", p.Pos(c.Pos()), "", fmt.Sprintf("dominated by the not-taken outcome of the reservation: %v; deferred release registered before: %v", free, released))
+	})
+	r.Count("guarded steps of dispatching", n)
+	r.Min("guarded steps of dispatching", 3)
 }
